@@ -383,12 +383,14 @@ func (r *reqState) encode() {
 			junk := patternBytes(uint64(sp.ID)+77, 40)
 			if len(sp.Msgs) > 0 {
 				z := wire.Gzip(append(patternBytes(sp.Msgs[0].Seed, 300), marshalMsg(sp.Codec, r.clientMsg(0))...))
-				switch sp.Msgs[0].Seed % 3 {
+				switch sp.Msgs[0].Seed % 4 {
 				case 1:
 					z[len(z)-6] ^= 0x55 // CRC-32 of the trailer
 					junk = z
 				case 2:
 					junk = z[:len(z)-9]
+				case 3:
+					junk = nil // flagged compressed, zero bytes long: not even a gzip header
 				}
 			}
 			w = append(w, 1, 0, 0, byte(len(junk)>>8), byte(len(junk)))
@@ -1014,6 +1016,9 @@ func runMuxScenario(t *testing.T, sc *MuxScenario, tape *core.Tape) (mr *muxRun)
 			cp := &core.ClockPlan{Weight: 2}
 			if sc.Note == "deadline" {
 				cp.Gate = &mr.reqs[0].hlog // only once the handler waits on its context
+				if mr.reqs[0].spec.Backend != "" {
+					cp.Gate = &mr.reqs[0].blog // (the handler that runs the script sits behind the proxy)
+				}
 			}
 			for _, ns := range sc.Clock {
 				cp.Jumps = append(cp.Jumps, time.Duration(ns))
